@@ -414,6 +414,8 @@ def summary_rows(model, rep, r, an):
         tot_stmts.append(s_)
     tot.run(tot_stmts)
     ok = True
+    if not any(rd.appends.get(ch) for ch in chans):
+        raise AnalysisError("solve: the Subsystem rows are not produced by per-row appends to the column lists: layout not readable")
     for label, reader, want in (("Subsystem", rd, {"Component": ("fmt", "Subsystem {}", SRC), "Domain": ("const", ""), "Vin (V)": None}),
                                 ("System total", tot, {"Component": ("const", "System total"), "Domain": ("const", "")})):
         for ch in chans:
